@@ -100,11 +100,20 @@ let show_out (o : c_out) : string =
 let show_log s =
   String.concat "," (List.rev_map (fun (((tid, _), _), o) -> string_of_int (int_of_nat tid) ^ ":" ^ show_out o) (cs_log s))
 
+(* verdict of the machine with the refined ghost (CacheStepsFull.v) on the last case run in the
+   Fixed order: "fbad=<b> fmis=<b> fsame=<b> fsim=<b>" (fsame: same memory, mutex, pcs and tick
+   flag as the machine of CacheSteps.v; fsim: the Cache.v history cx_trans of the refined history
+   has the same visible events and outputs) *)
+let last_full = ref ""
+
 let run_case md nkeys s0 sched =
   let buf = Buffer.create 256 in
   let s = ref s0 in
+  let fs = ref { cf_s = s0; cf_xevs = [] } in
+  let fstep it = if md = CsFixed then fs := fst (cf_step cfg !fs it) in
   List.iteri (fun i it ->
       let (s1, ev) = cs_step md cfg !s it in
+      fstep it;
       if i > 0 then Buffer.add_char buf ';';
       Buffer.add_string buf (show_obs nkeys s1 ev);
       s := s1) sched;
@@ -116,6 +125,7 @@ let run_case md nkeys s0 sched =
     for i = 0 to nthreads !s - 1 do
       if enabled !s i then begin
         let (s1, ev) = cs_step md cfg !s (CsRun (nat_of_int i)) in
+        fstep (CsRun (nat_of_int i));
         if not !first then Buffer.add_char fin ';';
         first := false;
         Buffer.add_string fin (string_of_int i ^ ":" ^ show_obs nkeys s1 ev);
@@ -126,6 +136,16 @@ let run_case md nkeys s0 sched =
   done;
   let stuck = List.filter (fun i -> not (finished (List.nth (cs_thr !s) i))) (List.init (nthreads !s) (fun i -> i)) in
   let end_ = if stuck = [] then "ok" else "stuck:" ^ String.concat "," (List.map string_of_int stuck) in
+  (if md = CsFixed then begin
+     let f = cf_s !fs in
+     let same = cs_m f = cs_m !s && cs_lock f = cs_lock !s && cs_bad f = cs_bad !s
+                && List.map (fun t -> (ct_pc t, ct_prog t, ct_op t)) (cs_thr f) = List.map (fun t -> (ct_pc t, ct_prog t, ct_op t)) (cs_thr !s) in
+     let m0 = cs_g s0 in
+     let xevs = List.rev (cf_xevs !fs) in
+     let sim = c_vis_outputs cfg m0 (cx_trans cfg m0 m0 xevs) = cx_vis_outputs cfg m0 xevs in
+     last_full := Printf.sprintf " fbad=%s fmis=%s fsame=%s fsim=%s" (if cs_bad f then "1" else "0") (if cs_mis f then "1" else "0")
+                    (if same then "1" else "0") (if sim then "1" else "0")
+   end else last_full := "");
   (!s, Printf.sprintf "steps=%s fin=%s end=%s" (Buffer.contents buf) (Buffer.contents fin) end_)
 
 let state_key s =
@@ -186,7 +206,7 @@ let () =
       let nkeys = if get m "keys" = "" then 1 else ios (get m "keys") in
       let s0 = cs_init_on (init_mem (get m "init")) (parse_progs (get m "progs")) in
       let (s1, tr) = run_case (mode_of m) nkeys s0 (parse_sched (get m "sched")) in
-      Printf.sprintf "%s | bad=%s mis=%s log=%s" tr (b2s (cs_bad s1)) (b2s (cs_mis s1)) (show_log s1));
+      Printf.sprintf "%s | bad=%s mis=%s log=%s%s" tr (b2s (cs_bad s1)) (b2s (cs_mis s1)) (show_log s1) !last_full);
   (* [order=orig] selects the step order of the code before commit 4caabe5 *)
   (* c04senum mode=all|edges max=N [tick=dt:n] init=.. progs=..  ->  states=<n> scheds=s1;s2;... *)
   Registry.register "c04senum" (fun toks ->
